@@ -177,7 +177,8 @@ func runNative(w *Workload, prep [][]*Prepared, warm []*Prepared, cfg RunCfg) *R
 		n := runtime.Stack(buf, true)
 		res.Deadlock = true
 		res.StuckSite = "native mode: tasks did not finish within 15s\n" + trimBlocked(string(buf[:n]))
-		res.Outcomes = nil
+		// the task goroutines may still be alive: their outcome slots must not be touched any more
+		res = &RunResult{Deadlock: true, StuckSite: res.StuckSite}
 	}
 	res.Stats.Yields = 1
 	res.Race = newRaceReports()
